@@ -45,11 +45,13 @@ func run(args []string) {
 		budget time.Duration
 	}
 	runs := []runCfg{{"one shared identity", idw.Params{Seed: seed}, 7, 100 * time.Second},
-		{"shared identity + 2 bystander identities", idw.Params{Seed: seed, Others: 2}, 5, 80 * time.Second}}
+		{"shared identity + 2 bystander identities", idw.Params{Seed: seed, Others: 2}, 5, 80 * time.Second},
+		{"one shared identity, the replicas' logical clocks may advance independently", idw.Params{Seed: seed, Ticks: 1}, 5, 75 * time.Second}}
 	if tier == "thorough" {
 		runs = []runCfg{{"one shared identity", idw.Params{Seed: seed}, 9, 12 * time.Minute},
 			{"shared identity + 2 bystander identities", idw.Params{Seed: seed, Others: 2}, 7, 10 * time.Minute},
-			{"shared identity + 2 bystander identities, second nonce stream", idw.Params{Seed: seed + 1, Others: 2}, 6, 5 * time.Minute}}
+			{"shared identity + 2 bystander identities, second nonce stream", idw.Params{Seed: seed + 1, Others: 2}, 6, 5 * time.Minute},
+			{"one shared identity, the replicas' logical clocks may advance independently", idw.Params{Seed: seed, Ticks: 2}, 7, 8 * time.Minute}}
 	}
 	states, trans := 0, 0
 	exhaustive := true
